@@ -168,7 +168,7 @@ func Modf(f float64) (float64, float64) {
 	if f == posInf || f == negInf {
 		return f, nan
 	}
-	if 1/f == negInf {
+	if f == 0 {
 		return f, f
 	}
 	frac := Mod(f, 1)
